@@ -266,6 +266,31 @@ def run(ctx) -> None:
                 rep.add("C09.R5", f"{f.qname}:{dotted(c.func)}", ok, f"{f.module.rel}:{c.lineno}", "the only deserialisation site (behind HMAC verification)" if ok else "stored bytes are deserialised outside the verified read path")
     if not loads:
         raise AnalysisError("DiskCache.get: no pickle.loads found")
+    # ... nor by the third-party store on our behalf: diskcache unpickles a row stored in its pickle mode inside Cache.get,
+    # before DiskCache has seen a signature.  DiskCache writes raw bytes and an ASCII digest only, so the store is opened
+    # with a Disk whose fetch() refuses pickle mode (a row whose type was changed then reads as missing)
+    dinit = dc.methods.get("__init__")
+    safe_disk = False
+    if dinit is not None:
+        disk_classes = [n for n in ast.walk(dinit.node) if isinstance(n, ast.ClassDef)] + [k.node for k in db.classes.values() if k.module.name == "hypergraph.cache"]
+        refusing = set()
+        for cd in disk_classes:
+            for m_ in cd.body:
+                if isinstance(m_, ast.FunctionDef) and m_.name == "fetch":
+                    for i_ in [x for x in ast.walk(m_) if isinstance(x, ast.If) and "MODE_PICKLE" in src(x.test)]:
+                        if i_.body and isinstance(i_.body[0], ast.Return) and not any(isinstance(y, ast.Call) for y in ast.walk(i_.body[0])):
+                            refusing.add(cd.name)
+        for c in [x for x in ast.walk(dinit.node) if isinstance(x, ast.Call)]:
+            if (dotted(c.func) or "").endswith("Cache") and "diskcache" in (dotted(c.func) or ""):
+                kw = {k.arg: k.value for k in c.keywords}
+                if "disk" in kw and src(kw["disk"]) in refusing:
+                    safe_disk = True
+                if None in kw or any(k.arg is None for k in c.keywords):
+                    # **kwargs: a preceding kwargs.setdefault("disk", <refusing class>) / kwargs["disk"] = ...
+                    for x in ast.walk(dinit.node):
+                        if isinstance(x, ast.Call) and isinstance(x.func, ast.Attribute) and x.func.attr == "setdefault" and len(x.args) == 2 and isinstance(x.args[0], ast.Constant) and x.args[0].value == "disk" and src(x.args[1]) in refusing and x.lineno < c.lineno:
+                            safe_disk = True
+    rep.add("C09.R5", f"{dc.qname}:store-never-unpickles", safe_disk, (dinit or dc).loc(), "the disk store is opened with a Disk that reads pickle-mode rows as missing" if safe_disk else "the diskcache store is opened with its default Disk: a payload or signature row replaced by a non-bytes object is stored in pickle mode and unpickled by diskcache inside Cache.get — before any signature check ('type change' corruption runs unauthenticated code)")
     from sa.cfg import single_defs
 
     sdefs = single_defs(gcfg)
@@ -493,6 +518,9 @@ def run(ctx) -> None:
             checks = [n for n in cfg2.nodes if any("check_cache" in call_names(db, c, f) for c in cfg2.calls_at(n))]
             if not restores:
                 rep.bad("C09.R7", f"{f.qname}:restore-before-apply", f.loc(), "the cached routing decision is never restored on a hit (a cached gate would route nowhere and its internal key would leak into the state)")
+            if execs and checks and not stores:
+                rep.bad("C09.R6", f"{f.qname}:stored-on-completion", f.loc(), "the function that looks a node up and executes it does not store its result: the write happens elsewhere (e.g. after the step's results were gathered and checked), so a node that completed in a step where a sibling failed is never stored and its function runs again on the next run although nothing was evicted")
+                continue
             if not (execs and stores and checks):
                 rep.bad("C09.R6", f"{f.qname}:structure", f.loc(), "cache check / execute / store sites not all found")
                 continue
